@@ -120,7 +120,7 @@ type c09In struct {
 	Lo       *c09Lo   `json:"lo,omitempty"`
 	Rq       *c09Rq   `json:"rq,omitempty"`
 	Md       *c09MD   `json:"md,omitempty"`
-	Trust    string   `json:"trust,omitempty"` // how the SP trusts the IdP: md1 | md2 | pin | fp256 | fp512
+	Trust    string   `json:"trust,omitempty"` // how the SP trusts the IdP: md1 | md2 | md0 | mdbad | pin | fp256 | fp512
 	Ki       string   `json:"ki,omitempty"`    // what the KeyInfo of every signature in the message holds
 	Shape    string   `json:"shape,omitempty"` // nesting shape of EntitiesDescriptor elements
 	Depth    string   `json:"depth,omitempty"` // depth class of the nesting
@@ -475,6 +475,12 @@ func c09SPFor(in *c09In) *saml.ServiceProvider {
 		s = newSP(idpMetadata([]keyUse{{"signing", idp1.CertB64()}}))
 	case "md2":
 		s = newSP(idpMetadata([]keyUse{{"signing", idp2.CertB64()}, {"", idp1.CertB64()}, {"encryption", key("idpenc").CertB64()}}))
+	case "md0":
+		s = newSP(idpMetadata([]keyUse{{"encryption", key("idpenc").CertB64()}}))
+	case "mdbad":
+		own := idp1.CertB64()
+		bad := []string{"", " \n ", "@@@ not * base64 @@@", own[:len(own)/2], own[:len(own)-3], "AAAA"}
+		s = newSP(idpMetadata([]keyUse{{"signing", own}, {"signing", bad[newRand("c09-mdbad/"+in.Entry+"/"+in.Ki).Intn(len(bad))]}}))
 	case "pin":
 		s = newSP(idpMetadata([]keyUse{{"signing", idp2.CertB64()}}))
 		b := idp1.CertB64()
